@@ -80,10 +80,14 @@ pub enum K {
     Die,
     Squit,
     Stats,
+    RawConnect,
+    RegLine,
+    DropUnreg,
 }
 
 #[derive(Clone, Debug)]
 pub enum Op {
+    Connect,
     Line(usize, String),
     NewUser { nick: String, user: String },
     Close(usize, CloseKind),
@@ -96,6 +100,9 @@ pub struct Profile {
     pub chans: Vec<String>,
     pub max_conns: usize,
     pub oper_names: Vec<(String, String)>, // (name, password) known to the generator
+    pub reg_passwords: Vec<String>,        // passwords tried by registering connections
+    pub reg_usernames: Vec<String>,        // extra USER names (configured users)
+    pub reg_nicks: Vec<String>,            // nicks contended for by registering connections
 }
 
 pub const TEXTS: &[&str] = &[
@@ -122,12 +129,63 @@ impl Profile {
             chans: vec!["#c0".into(), "#c1".into(), "#c2".into(), "&l0".into()],
             max_conns: 6,
             oper_names: vec![],
+            reg_passwords: vec![],
+            reg_usernames: vec![],
+            reg_nicks: vec![],
         }
     }
     pub fn with(mut self, w: &[(K, u32)]) -> Profile {
         self.weights = w.to_vec();
         self
     }
+}
+
+pub const GATED: &[&str] = &[
+    "JOIN #c0",
+    "PRIVMSG n0 :hi from nobody",
+    "PRIVMSG #c0 :hi channel",
+    "NOTICE n0 :psst",
+    "MODE #c0 +m",
+    "MODE n0 +i",
+    "TOPIC #c0 :taken over",
+    "OPER op0 operpw0",
+    "KILL n0 :bye",
+    "KICK #c0 n0",
+    "INVITE n0 #c0",
+    "PART #c0",
+    "AWAY :nobody home",
+    "WALLOPS :hello ops",
+    "WHO *",
+    "WHO #c0",
+    "WHOIS n0",
+    "WHOWAS n0",
+    "NAMES",
+    "NAMES #c0",
+    "LIST",
+    "LUSERS",
+    "ISON n0 n1",
+    "USERHOST n0",
+    "PING x",
+    "PONG x",
+    "MOTD",
+    "VERSION",
+    "ADMIN",
+    "TIME",
+    "INFO",
+    "LINKS",
+    "HELP",
+    "STATS u",
+    "DIE",
+    "SQUIT irc.irc :bye",
+    "REHASH",
+    "RESTART",
+    "CONNECT a.b",
+];
+
+pub fn unregistered_conns(m: &Model) -> Vec<usize> {
+    (0..m.conns.len())
+        .filter(|c| matches!(m.conns[*c].st, crate::model::ConnSt::Unreg { .. }))
+        .collect()
 }
 
 pub fn registered_conns(m: &Model) -> Vec<usize> {
@@ -329,6 +387,47 @@ pub fn gen_op(m: &Model, p: &Profile, seed: &OpSeed) -> Option<Op> {
         r -= w;
     }
     let regs = registered_conns(m);
+    if matches!(kind, K::RawConnect | K::RegLine | K::DropUnreg) {
+        let unreg = unregistered_conns(m);
+        let open = (0..m.conns.len()).filter(|c| m.is_open(*c)).count();
+        if kind == K::RawConnect || unreg.is_empty() {
+            if open < p.max_conns {
+                return Some(Op::Connect);
+            }
+            if unreg.is_empty() {
+                return None;
+            }
+        }
+        let c = unreg[s.pick(unreg.len())];
+        if kind == K::DropUnreg {
+            return Some(Op::Close(c, if s.chance(30) { CloseKind::HalfClose } else { CloseKind::Drop }));
+        }
+        let nicks = if p.reg_nicks.is_empty() { &p.nicks } else { &p.reg_nicks };
+        let line = match s.pick(14) {
+            0 | 1 | 2 => format!("NICK {}", nicks[s.pick(nicks.len())]),
+            3 | 4 | 5 => {
+                let un = if !p.reg_usernames.is_empty() && s.chance(50) {
+                    p.reg_usernames[s.pick(p.reg_usernames.len())].clone()
+                } else {
+                    format!("u{}", c)
+                };
+                format!("USER {} 0 * :Real c{}", un, c)
+            }
+            6 => {
+                if p.reg_passwords.is_empty() {
+                    "PASS nopassword".to_string()
+                } else {
+                    format!("PASS {}", p.reg_passwords[s.pick(p.reg_passwords.len())])
+                }
+            }
+            7 => "CAP LS 302".to_string(),
+            8 => "CAP END".to_string(),
+            9 => ["CAP REQ :multi-prefix", "CAP REQ :bogus-cap", "CAP LIST", "AUTHENTICATE PLAIN"][s.pick(4)].to_string(),
+            10 => "QUIT".to_string(),
+            _ => GATED[s.pick(GATED.len())].to_string(),
+        };
+        return Some(Op::Line(c, line));
+    }
     if kind == K::NewUser || regs.is_empty() {
         let free = free_nicks(m, p);
         let open = (0..m.conns.len()).filter(|c| m.is_open(*c)).count();
@@ -652,7 +751,7 @@ pub fn gen_op(m: &Model, p: &Profile, seed: &OpSeed) -> Option<Op> {
             }
         }
         K::Stats => format!("STATS {}", ["u", "m", "o"][s.pick(3)]),
-        K::NewUser => unreachable!(),
+        K::NewUser | K::RawConnect | K::RegLine | K::DropUnreg => unreachable!(),
     };
     Some(Op::Line(c, line))
 }
